@@ -481,7 +481,7 @@ fn run_attempt(plan: &Plan, opts: &Opts, t_ms: u64) -> Outcome1 {
                 && (0..nd).any(|d| m.orphan[d] && (m.pcd[d] == "send" || m.pcd[d] == "sending"))
                 && (0..nd).all(|d| m.pcd[d] == "idle" || m.orphan[d])
         }).unwrap_or(false);
-    let first_wait = if predicted_orphan { opts.hang_ms.min(1500) } else { opts.hang_ms };
+    let first_wait = if predicted_orphan { opts.hang_ms.min(500) } else { opts.hang_ms };
     if !sess.wait_until(first_wait, returned) {
         // a dispatch hangs: classify, then rescue it by spawning a fresh worker through another dispatch
         let stuck: Vec<usize> = {
@@ -722,7 +722,7 @@ fn run_attempt(plan: &Plan, opts: &Opts, t_ms: u64) -> Outcome1 {
         }
         if g.max_gauge > plan.limit {
             let upto = g.over_at.unwrap_or(g.log.len());
-            let cause = oracle::over_cause(&g, upto, plan.limit);
+            let cause = oracle::over_cause(&g, upto, plan.limit, out.drift.is_none());
             let from = upto.saturating_sub(40);
             out.problems.push(Problem {
                 ty: "contract",
@@ -820,8 +820,12 @@ fn main() {
             }
         }));
     }
+    let mut runner_panics = 0;
     for t in ths {
-        let _ = t.join();
+        if let Err(e) = t.join() {
+            runner_panics += 1;
+            eprintln!("harness runner thread panicked: {}", hcore::out::panic_msg(e));
+        }
     }
     let mut r = std::mem::take(&mut *rep.lock().unwrap_or_else(|e| e.into_inner()));
     let s = stats.lock().unwrap_or_else(|e| e.into_inner());
@@ -829,6 +833,7 @@ fn main() {
     r.set("drifted", json!(s.1));
     r.set("events", json!(s.2));
     r.set("fully_steered", json!(s.3));
+    r.set("runner_panics", json!(runner_panics));
     r.set("aborted", json!(ABORT.load(Ordering::SeqCst)));
     r.finish();
     // stuck threads of a broken pool must not keep the process alive
